@@ -359,7 +359,13 @@ func Check(c Case) *kit.Violation {
 	}
 	log := &calls{}
 	var api *untyped.API
-	var verr error
+	var verr, verr2, verr3 error
+	revalidate := true
+	for _, m := range append(append([]string{}, c.RegConsumers...), c.RegProducers...) {
+		if strings.EqualFold(m, "application/json") {
+			revalidate = false
+		}
+	}
 	if v := kit.Guard("NewAPI/Register*/Validate", func() {
 		api = untyped.NewAPI(doc)
 		if !c.JSONDefaults {
@@ -394,8 +400,34 @@ func Check(c Case) *kit.Violation {
 			}))
 		}
 		verr = api.Validate()
+		// the registrations are changed after a validation and validated again: the verdict follows the tables as
+		// they are now (only when the JSON pair is not registered explicitly, so that toggling the defaults is
+		// exactly "JSON pair present / absent" and can be undone)
+		if revalidate {
+			toggle := func(on bool) {
+				if on {
+					api.WithJSONDefaults()
+				} else {
+					api.WithoutJSONDefaults()
+				}
+			}
+			toggle(!c.JSONDefaults)
+			verr2 = api.Validate()
+			toggle(c.JSONDefaults)
+			verr3 = api.Validate()
+		}
 	}); v != nil {
 		return kit.Failf("%s\n%s", v.Msg, c.brief())
+	}
+	if revalidate {
+		c2 := c
+		c2.JSONDefaults = !c.JSONDefaults
+		if want := FirstFailing(c2.Model()) < 0; want != (verr2 == nil) {
+			return kit.Failf("REVALIDATE after toggling the JSON defaults (now %v): Validate returned %v, the model says passes=%v\n%s", c2.JSONDefaults, verr2, want, c.brief())
+		}
+		if (verr == nil) != (verr3 == nil) {
+			return kit.Failf("REVALIDATE after toggling the JSON defaults back: Validate returned %v, the first validation returned %v\n%s", verr3, verr, c.brief())
+		}
 	}
 
 	cats := c.Model()
